@@ -65,6 +65,17 @@ class ConvertStreamToSnaxStreamPattern(RewritePattern):
             # Fetch the first stride
             stride, bound = next(access_iter)
 
+            # the innermost accessed elements are packed into TCDM words below, which is only
+            # correct if they lie next to each other in memory
+            stream_type = op.body.block.arg_types[operand]
+            if (
+                isinstance(stream_type, dart.StreamType)
+                and isinstance(el_type := stream_type.element_type, builtin.FixedBitwidthType)
+                and bound > 1
+                and stride != el_type.size
+            ):
+                raise RuntimeError("Non-contiguous access is not possible for this streamer configuration")
+
             # TCDM takes 8 contiguous bytes minimum
             if stride * bound == TCDM_BANK_WIDTH:
                 stride, bound = next(access_iter)
